@@ -10,13 +10,14 @@ def build_py(spec):
                                      path=None)
     share = spec.get('share', True)
     ncache = {}
+    display = spec.get('tpl_names') or {}     # template key -> `name` attribute (default: the key itself)
 
     def graph_tpl(cls, name, oplist):
         if any(ov for _, ov in oplist):
             operators = {ops[o]: dict(ov) for o, ov in oplist}
         else:
             operators = [ops[o] for o, _ in oplist]
-        return cls(name=name, operators=operators, path=None)
+        return cls(name=display.get(name, name), operators=operators, path=None)
 
     def node_tpl(name):
         if share:
